@@ -1,10 +1,15 @@
 """C13 - pen round trips, glyph copies, decomposition: correspondence with M-Pen + direct oracle.
 
 A case = one or two fonts (each built in memory or written to a scratch UFO and reopened, every glyph
-then `new`, loaded `shallow` (contours never touched) or `full`), followed by operations:
-draw / rebuild / drawContour / drawComponent (point pen), segdraw / segrebuild (segment pen),
-copy (copyDataFromGlyph into a fresh glyph), insert (Layer.insertGlyph, same or other font),
-decompose / decomposeAll, pen (a raw point-pen call stream, optionally with skipConflictingIdentifiers).
+then `new`, loaded `shallow` (contours never touched) or `full`), each with its default layer (reached
+through the Font API or through font.layers.defaultLayer) and often a second layer "bg" that holds glyphs
+of the SAME names with other outlines, sometimes a Layer() that belongs to no font; followed by operations:
+draw / rebuild / drawContour / drawComponent (point pen; the pen is one of today's protocol or one whose
+beginPath / addPoint / addComponent - any subset - predate the `identifier` keyword, for rebuilds a filter pen
+in front of the empty glyph's own pen), segdraw / segrebuild (segment pen),
+copy (copyDataFromGlyph into a fresh glyph), insert (Layer.insertGlyph, same or other layer / font),
+decompose / decomposeAll (base glyphs are those of the glyph's own layer),
+pen (a raw point-pen call stream, optionally with skipConflictingIdentifiers).
 Every op's observable result is compared with the Lean model (M-Pen, `(model pen)`); the direct oracle
 evaluates the property's own predicates on the implementation's trace; independence of copies is checked
 on the implementation only, at the end of the case, by mutating each side.
@@ -21,7 +26,12 @@ MODEL = "pen"
 SHRINKABLE = True
 RULE = ("quick 1200 / thorough 20000 cases; a case = 1-2 fonts of 1-7 glyphs (bases A-C, composites D-G with 1-3 nesting levels of "
         "integer/dyadic transforms incl. identity, rotation, mirror, degenerate; occasionally a missing base), each font built "
-        "in memory or saved to a scratch UFO and reopened, each glyph new / shallow (contours untouched) / full; contours "
+        "in memory or saved to a scratch UFO and reopened, each glyph new / shallow (contours untouched) / full; 45% of the "
+        "fonts have a second layer 'bg' of 1-5 glyphs drawn from the SAME names with their own outlines (so a name means a "
+        "different glyph, or none, per layer; 12% of the components name a glyph that exists in the font's other layer), 30% "
+        "address their default layer as font.layers.defaultLayer instead of through Font, 12% of the cases add a Layer() "
+        "without font; 40% of the draw/rebuild/drawContour/drawComponent ops use a pen whose beginPath/addPoint/addComponent "
+        "(all three = the protocol before identifiers, or any subset) do not accept `identifier`; contours "
         "open/closed, line/curve/qcurve runs, off-curve-only, single-point, start on off-curve, duplicate coordinates around "
         "the closing point; 12% of the cases contain deliberately malformed outlines or duplicate identifiers (in-memory only); "
         "identifiers from a shared pool of 10 on a random subset (so decomposition conflicts are frequent); 3-10 ops per case "
@@ -41,7 +51,12 @@ ASSUMPTIONS = [
     "direct ops); after other unexpected errors a glyph is poisoned too; the state after a REJECTED PEN CALL is modelled",
     "copy/insert destinations are fresh glyphs (Glyph(), Layer.newGlyph), as Layer.insertGlyph uses copyDataFromGlyph",
     "lib values are opaque to the model (canonical JSON dump); colours are given in normalised form",
-    "the check targets defcon with the fixes C13-decompose-shallow and C10-6 (shallow contours reserve their identifiers)",
+    "the check targets defcon with the fixes C13-decompose-shallow, C10-6 (shallow contours reserve their identifiers) and "
+    "C13-r2-1 (a shallow-loaded glyph falls back for pens without the identifier keyword like a loaded one)",
+    "a model 'layer' is one defcon Layer: f1 = default layer of font f1, f1:bg = its second layer, L1 = Layer() without font; "
+    "the base glyph of a component is the glyph of that name in the layer of the glyph that holds the component",
+    "pens that predate identifiers are modelled by their signatures only (a method either accepts the identifier keyword or "
+    "raises TypeError on it); DeprecationWarnings are counted, not judged",
 ]
 TRUSTED = ["fontTools PointToSegmentPen/SegmentToPointPen/Transform ported by hand into the model (validated by the same runs)",
            "UFO write/read of the scratch fonts goes through defcon's own save + fontTools.ufoLib (valid outlines only)",
@@ -238,7 +253,7 @@ def gen_lib(rng):
     return lib
 
 
-def gen_content(rng, name, names_present, id_rate, malformed=False, dups=False):
+def gen_content(rng, name, names_present, id_rate, malformed=False, dups=False, foreign=()):
     ids = IdSource(rng, id_rate, dups)
     stats = {}
     contours = []
@@ -256,6 +271,10 @@ def gen_content(rng, name, names_present, id_rate, malformed=False, dups=False):
             base = rng.choice(cands)
             if rng.random() < 0.04:
                 base = "missing"
+            # a name that (also, or only) exists in the OTHER layer of the font: here it is this layer's glyph or nothing
+            other = [n for n in foreign if RANK[n] < RANK[name]]
+            if other and rng.random() < 0.12:
+                base = rng.choice(other)
             comps.append([base, gen_transform(rng), ids.take()])
     anchors = []
     for _ in range(rng.choice([0, 0, 1, 2])):
@@ -306,6 +325,69 @@ def gen_events(rng, bases=("ext",)):
     return evs
 
 
+def layer_specs(case):
+    """(layer id, font spec, glyph list) of every layer of a case, in set-up order: `f1` = the default layer of
+    font f1, `f1:bg` = its second layer, `L1` = a Layer() without font"""
+    for fid in sorted(case["fonts"]):
+        spec = case["fonts"][fid]
+        yield fid, spec, spec["glyphs"]
+        for lname in sorted(spec.get("layers", {})):
+            yield fid + ":" + lname, spec, spec["layers"][lname]
+
+
+def op_caps(op):
+    """the pen of a draw / rebuild / drawContour / drawComponent op (ops recorded before pens were varied have none)"""
+    k = op[0]
+    if k in ("draw", "rebuild"):
+        return op[3] if len(op) > 3 else FULL
+    if k in ("drawContour", "drawComponent"):
+        return op[4] if len(op) > 4 else FULL
+    return FULL
+
+
+CAPS_ALL = ["bpc", "bp", "bc", "pc", "b", "p", "c", ""]     # the methods of a pen that accept `identifier`
+FULL = "bpc"
+BG = "bg"
+
+
+def gen_caps(rng):
+    r = rng.random()
+    if r < 0.6:
+        return FULL
+    if r < 0.8:
+        return ""                      # the point pen protocol before identifiers
+    return rng.choice(CAPS_ALL[1:-1])
+
+
+def gen_names(rng, first, small=False):
+    names = []
+    if small:
+        names += rng.sample(BASES, rng.randint(1, 2))
+    else:
+        names += rng.sample(BASES, rng.randint(1, 3)) if first else rng.sample(BASES, rng.randint(0, 2))
+    if first or rng.random() < 0.4:
+        names += rng.sample(LEVEL1, rng.randint(0, 1) if small else rng.randint(0, 2))
+        if any(n in names for n in LEVEL1) and rng.random() < (0.5 if small else 0.7):
+            names += LEVEL2
+            if not small and rng.random() < 0.6:
+                names += LEVEL3
+    return names
+
+
+def gen_glyphs(rng, lid, names, kind, id_rate, malformed_case, stats, keys, foreign=()):
+    glyphs = []
+    for n in names:
+        bad = malformed_case and kind != "disk" and rng.random() < 0.4
+        content, st = gen_content(rng, n, names, id_rate, malformed=bad, dups=bad and rng.random() < 0.4, foreign=foreign)
+        for k, v in st.items():
+            stats[k] = stats.get(k, 0) + v
+        variant = "new" if kind != "disk" else rng.choice(["shallow", "shallow", "full"])
+        glyphs.append([n, variant, content])
+        keys.append((lid, n))
+        stats["variant." + variant] = stats.get("variant." + variant, 0) + 1
+    return glyphs
+
+
 def gen_case(rng, tier):
     stats = {}
     nfonts = 2 if rng.random() < 0.6 else 1
@@ -318,52 +400,55 @@ def gen_case(rng, tier):
         kind = "disk" if rng.random() < 0.6 else "new"
         if malformed_case and fi == 0:
             kind = "new"
-        names = []
-        names += rng.sample(BASES, rng.randint(1, 3)) if fi == 0 else rng.sample(BASES, rng.randint(0, 2))
-        if fi == 0 or rng.random() < 0.4:
-            names += rng.sample(LEVEL1, rng.randint(0, 2))
-            if any(n in names for n in LEVEL1) and rng.random() < 0.7:
-                names += LEVEL2
-                if rng.random() < 0.6:
-                    names += LEVEL3
-        glyphs = []
-        for n in names:
-            bad = malformed_case and kind == "new" and rng.random() < 0.4
-            content, st = gen_content(rng, n, names, id_rate, malformed=bad, dups=bad and rng.random() < 0.4)
-            for k, v in st.items():
-                stats[k] = stats.get(k, 0) + v
-            variant = "new" if kind == "new" else rng.choice(["shallow", "shallow", "full"])
-            glyphs.append([n, variant, content])
-            keys.append((fid, n))
-            stats["variant." + variant] = stats.get("variant." + variant, 0) + 1
-        fonts[fid] = dict(kind=kind, glyphs=glyphs)
+        names = gen_names(rng, fi == 0)
+        bgnames = gen_names(rng, True, small=True) if rng.random() < 0.45 else None
+        spec = dict(kind=kind, glyphs=gen_glyphs(rng, fid, names, kind, id_rate, malformed_case, stats, keys,
+                                                 foreign=bgnames or ()))
+        if bgnames is not None:
+            spec["layers"] = {BG: gen_glyphs(rng, fid + ":" + BG, bgnames, kind, id_rate, malformed_case, stats, keys,
+                                             foreign=names)}
+            stats["layer.second"] = stats.get("layer.second", 0) + 1
+            shared = len(set(names) & set(bgnames))
+            stats["layer.names-in-both"] = stats.get("layer.names-in-both", 0) + shared
+        if rng.random() < 0.3:
+            spec["api"] = "layer"
+            stats["layer.default-via-layerset"] = stats.get("layer.default-via-layerset", 0) + 1
+        fonts[fid] = spec
+    if rng.random() < 0.12:
+        # a layer that belongs to no font
+        fonts["L1"] = dict(kind="free", glyphs=gen_glyphs(rng, "L1", gen_names(rng, True, small=True), "free", id_rate,
+                                                          False, stats, keys))
+        stats["layer.free"] = stats.get("layer.free", 0) + 1
+    case0 = dict(fonts=fonts)
     # operations
     ops = []
     fresh = 0
-    fids = sorted(fonts)
+    fids = [lid for lid, _, _ in layer_specs(case0)]
     comp_count = {}
     cont_count = {}
-    for fid in fids:
-        for n, _, c in fonts[fid]["glyphs"]:
-            comp_count[(fid, n)] = len(c["components"])
-            cont_count[(fid, n)] = len(c["contours"])
+    for lid, _, glyphs in layer_specs(case0):
+        for n, _, c in glyphs:
+            comp_count[(lid, n)] = len(c["components"])
+            cont_count[(lid, n)] = len(c["contours"])
     for _ in range(rng.randint(3, 10)):
         f, n = rng.choice(keys)
         r = rng.random()
         if r < 0.08:
-            ops.append(["draw", f, n])
+            ops.append(["draw", f, n, gen_caps(rng)])
         elif r < 0.20:
-            ops.append(["rebuild", f, n])
+            ops.append(["rebuild", f, n, gen_caps(rng)])
         elif r < 0.27:
             withc = [k for k in keys if cont_count.get(k, 0) > 0]
             if withc and rng.random() < 0.97:
                 f, n = rng.choice(withc)
-            ops.append(["drawContour", f, n, rng.randrange(max(1, cont_count.get((f, n), 0) + (rng.random() < 0.03)))])
+            ops.append(["drawContour", f, n, rng.randrange(max(1, cont_count.get((f, n), 0) + (rng.random() < 0.03))),
+                        gen_caps(rng)])
         elif r < 0.31:
             withc = [k for k in keys if comp_count.get(k, 0) > 0]
             if withc and rng.random() < 0.97:
                 f, n = rng.choice(withc)
-            ops.append(["drawComponent", f, n, rng.randrange(max(1, comp_count.get((f, n), 0) + (rng.random() < 0.03)))])
+            ops.append(["drawComponent", f, n, rng.randrange(max(1, comp_count.get((f, n), 0) + (rng.random() < 0.03))),
+                        gen_caps(rng)])
         elif r < 0.38:
             ops.append(["segdraw", f, n])
         elif r < 0.48:
@@ -429,7 +514,7 @@ def generate(rng, tier):
 def neighbourhood(case, step, rng):
     """variants around a diverging step: the same history with every source state, and the diverging
     prefix followed by each op the property talks about on every glyph"""
-    nsetup = sum(len(f["glyphs"]) for f in case["fonts"].values())
+    nsetup = sum(len(glyphs) for _, _, glyphs in layer_specs(case))
     ops = case["ops"]
     k = max(0, step - nsetup)
     prefix = ops[:k + 1]
@@ -438,20 +523,23 @@ def neighbourhood(case, step, rng):
         fonts = json.loads(json.dumps(case["fonts"]))
         ok = True
         for f in fonts.values():
+            if f["kind"] == "free":
+                continue
             if variant == "new":
                 f["kind"] = "new"
             elif f["kind"] != "disk":
                 ok = ok and _disk_ok(f)
                 f["kind"] = "disk"
-            for g in f["glyphs"]:
+            for g in f["glyphs"] + [g for l in f.get("layers", {}).values() for g in l]:
                 g[1] = variant
         if ok:
             yield dict(case, fonts=fonts, ops=prefix)
             yield dict(case, fonts=fonts)
-    keys = [(fid, g[0]) for fid, f in sorted(case["fonts"].items()) for g in f["glyphs"]]
+    keys = [(lid, g[0]) for lid, _, glyphs in layer_specs(case) for g in glyphs]
     for (f, n) in keys:
-        for follow in (["rebuild", f, n], ["copy", f, n, "-", "nb"], ["insert", f, n, f, "nbi"], ["decomposeAll", f, n],
-                       ["segrebuild", f, n], ["drawContour", f, n, 0]):
+        for follow in (["rebuild", f, n, FULL], ["rebuild", f, n, ""], ["draw", f, n, ""], ["copy", f, n, "-", "nb"],
+                       ["insert", f, n, f, "nbi"], ["decomposeAll", f, n], ["decompose", f, n, 0], ["segrebuild", f, n],
+                       ["drawContour", f, n, 0, FULL], ["drawContour", f, n, 0, ""], ["drawComponent", f, n, 0, ""]):
             if f == "-" and follow[0] == "decomposeAll":
                 continue
             yield dict(case, ops=prefix + [follow])
@@ -460,7 +548,7 @@ def neighbourhood(case, step, rng):
 
 def _disk_ok(font):
     """can this in-memory font be written as a UFO (valid outlines, unique identifiers)?"""
-    for _, _, c in font["glyphs"]:
+    for _, _, c in font["glyphs"] + [g for l in font.get("layers", {}).values() for g in l]:
         seen = set()
         allids = [x["id"] for x in c["anchors"]] + [x["id"] for x in c["guidelines"]] + [k[2] for k in c["components"]]
         for ct in c["contours"]:
@@ -552,9 +640,13 @@ def enc_ev(e):
 
 def enc_op(op):
     k = op[0]
-    if k in ("draw", "rebuild", "segdraw", "segrebuild", "decomposeAll", "dump", "new"):
+    if k in ("draw", "rebuild"):
+        return [Atom(k), op[1], op[2], op_caps(op)]
+    if k in ("segdraw", "segrebuild", "decomposeAll", "dump", "new"):
         return [Atom(k), op[1], op[2]]
-    if k in ("drawContour", "drawComponent", "decompose"):
+    if k in ("drawContour", "drawComponent"):
+        return [Atom(k), op[1], op[2], op[3], op_caps(op)]
+    if k == "decompose":
         return [Atom(k), op[1], op[2], op[3]]
     if k in ("copy", "insert"):
         return [Atom(k), op[1], op[2], op[3], op[4]]
@@ -565,9 +657,9 @@ def enc_op(op):
 
 def setup_ops(case):
     res = []
-    for fid in sorted(case["fonts"]):
-        for n, variant, content in case["fonts"][fid]["glyphs"]:
-            res.append(["mk", fid, n, variant, content])
+    for lid, _, glyphs in layer_specs(case):
+        for n, variant, content in glyphs:
+            res.append(["mk", lid, n, variant, content])
     return res
 
 
@@ -601,6 +693,89 @@ class RecPen(object):
 
     def addComponent(self, baseGlyphName, transformation, identifier=None, **kwargs):
         self.evs.append(("comp", baseGlyphName, tuple(transformation), identifier))
+
+
+def restricted_pen_class(caps, forward):
+    """A point pen class whose beginPath / addPoint / addComponent accept the `identifier` keyword only when
+    "b" / "p" / "c" is in `caps` - the other methods have the signatures of the point pen protocol as it was
+    before identifiers were added (no `identifier`, no **kwargs: the keyword raises TypeError, as in any pen
+    written against that protocol).  forward=False: a recording pen (events as RecPen, identifier None where
+    it cannot be told); forward=True: a filter pen that hands every call on to another point pen."""
+    class Pen(object):
+        def __init__(self, outPen=None):
+            self.evs = []
+            self._outPen = outPen
+
+        def endPath(self):
+            if forward:
+                self._outPen.endPath()
+            else:
+                self.evs.append(("ep",))
+
+    if "b" in caps:
+        def beginPath(self, identifier=None, **kwargs):
+            if forward:
+                self._outPen.beginPath(identifier=identifier)
+            else:
+                self.evs.append(("bp", identifier))
+    else:
+        def beginPath(self):
+            if forward:
+                self._outPen.beginPath()
+            else:
+                self.evs.append(("bp", None))
+    if "p" in caps:
+        def addPoint(self, pt, segmentType=None, smooth=False, name=None, identifier=None, **kwargs):
+            if forward:
+                self._outPen.addPoint(pt, segmentType=segmentType, smooth=smooth, name=name, identifier=identifier)
+            else:
+                self.evs.append(("pt", pt[0], pt[1], segmentType, bool(smooth), name, identifier))
+    else:
+        def addPoint(self, pt, segmentType=None, smooth=False, name=None):
+            if forward:
+                self._outPen.addPoint(pt, segmentType=segmentType, smooth=smooth, name=name)
+            else:
+                self.evs.append(("pt", pt[0], pt[1], segmentType, bool(smooth), name, None))
+    if "c" in caps:
+        def addComponent(self, baseGlyphName, transformation, identifier=None, **kwargs):
+            if forward:
+                self._outPen.addComponent(baseGlyphName, transformation, identifier=identifier)
+            else:
+                self.evs.append(("comp", baseGlyphName, tuple(transformation), identifier))
+    else:
+        def addComponent(self, baseGlyphName, transformation):
+            if forward:
+                self._outPen.addComponent(baseGlyphName, transformation)
+            else:
+                self.evs.append(("comp", baseGlyphName, tuple(transformation), None))
+    Pen.beginPath = beginPath
+    Pen.addPoint = addPoint
+    Pen.addComponent = addComponent
+    Pen.__name__ = "%sPen_%s" % ("Filter" if forward else "Rec", caps or "old")
+    return Pen
+
+
+_PEN_CLASSES = {}
+
+
+def pen_for(caps, outPen=None):
+    """the pen a draw op draws into: today's protocol -> the plain recording pen / the glyph's own pen"""
+    if caps == FULL:
+        return RecPen() if outPen is None else outPen
+    key = (caps, outPen is not None)
+    if key not in _PEN_CLASSES:
+        _PEN_CLASSES[key] = restricted_pen_class(caps, outPen is not None)
+    return _PEN_CLASSES[key](outPen)
+
+
+def draw_into(obj, pen, w=None):
+    """obj.drawPoints(pen); the DeprecationWarnings about discarded identifiers are counted, never shown"""
+    import warnings
+    with warnings.catch_warnings(record=True) as caught:
+        warnings.simplefilter("always")
+        obj.drawPoints(pen)
+    if w is not None and caught:
+        w.count("pen.identifier-discarded-warnings", len(caught))
 
 
 class RecSegPen(object):
@@ -751,6 +926,8 @@ class World(object):
         from defcon import Font
         self.case = case
         self.fonts = {}
+        self.layers = {}          # layer id -> the object glyphs are reached through (Font or Layer)
+        self.where = {"-": ""}    # layer id -> suffix of the oracle's call site
         self.keep = []
         self.glyphs = {}          # (font id, name) -> glyph object
         self.poisoned = set()
@@ -760,16 +937,40 @@ class World(object):
         self.good = 0
         for fid in sorted(case["fonts"]):
             spec = case["fonts"][fid]
+            lnames = sorted(spec.get("layers", {}))
+            if spec["kind"] == "free":
+                from defcon import Layer
+                self.layers[fid] = Layer()
+                self.where[fid] = "@fontlessLayer"
+                continue
             if spec["kind"] == "disk":
                 f0 = Font()
+                self.keep.append(f0)
                 for n, _, c in spec["glyphs"]:
                     fill_glyph(f0.newGlyph(n), c)
+                for lname in lnames:
+                    l0 = f0.newLayer(lname)
+                    self.keep.append(l0)
+                    for n, _, c in spec["layers"][lname]:
+                        fill_glyph(l0.newGlyph(n), c)
                 path = os.path.join(tmp, fid + ".ufo")
                 f0.save(path)
-                self.keep.append(f0)
-                self.fonts[fid] = Font(path)
+                font = Font(path)
             else:
-                self.fonts[fid] = Font()
+                font = Font()
+                for lname in lnames:
+                    self.keep.append(font.newLayer(lname))
+            self.fonts[fid] = font
+            if spec.get("api") == "layer":
+                self.layers[fid] = font.layers.defaultLayer
+                self.where[fid] = "@defaultLayer"
+            else:
+                self.layers[fid] = font
+                self.where[fid] = ""
+            for lname in lnames:
+                self.layers[fid + ":" + lname] = font.layers[lname]
+                self.where[fid + ":" + lname] = "@secondLayer"
+            self.keep += list(self.layers.values())
 
     def count(self, k, n=1):
         self.stats[k] = self.stats.get(k, 0) + n
@@ -784,7 +985,7 @@ class World(object):
         if k == "new":
             from defcon import Glyph
             f, n = op[1], op[2]
-            g = Glyph() if f == "-" else self.fonts[f].newGlyph(n)
+            g = Glyph() if f == "-" else self.layers[f].newGlyph(n)
             self.keep.append(g)
             self.glyphs[(f, n)] = g
             self.poisoned.discard((f, n))
@@ -796,7 +997,7 @@ class World(object):
         g = self.glyphs.get(key)
         if g is None:
             return [Atom("err"), Atom("KeyError")], None
-        ctx = dict(op=op, key=key, variant=self.state_of(g), tainted=key in self.tainted)
+        ctx = dict(op=op, key=key, variant=self.state_of(g), tainted=key in self.tainted, where=self.where.get(op[1], ""))
         try:
             out = self.run_op(op, g, ctx)
             self.count("ok." + k)
@@ -825,7 +1026,7 @@ class World(object):
 
     def mk(self, op):
         _, f, n, variant, c = op
-        font = self.fonts[f]
+        font = self.layers[f]
         key = (f, n)
         try:
             if variant == "new":
@@ -845,7 +1046,7 @@ class World(object):
                     if c["contours"] and not is_shallow(g):
                         raise RuntimeError("harness: glyph %s is not shallow loaded" % n)
                     self.count("src.shallow.confirmed")
-            return [Atom("ok"), dump(g)], dict(op=op, key=key, variant=variant, mk=True, glyph=g)
+            return [Atom("ok"), dump(g)], dict(op=op, key=key, variant=variant, mk=True, glyph=g, where=self.where[f])
         except Exception as e:
             if isinstance(e, RuntimeError):
                 raise
@@ -856,7 +1057,7 @@ class World(object):
             if n in font:
                 del font[n]
             self.count("err." + type(e).__name__)
-            return err_of(e), dict(op=op, key=key, variant=variant, mk=True, error=type(e).__name__)
+            return err_of(e), dict(op=op, key=key, variant=variant, mk=True, error=type(e).__name__, where=self.where[f])
 
     def run_op(self, op, g, ctx):
         from defcon import Glyph
@@ -864,15 +1065,21 @@ class World(object):
         ok = Atom("ok")
         if k == "dump":
             return [ok, dump(g)]
+        caps = op_caps(op)
+        if caps != FULL and k in ("draw", "rebuild", "drawContour", "drawComponent"):
+            self.count("pen." + k + "." + ("before-identifiers" if caps == "" else "partly-before-identifiers"))
         if k == "draw":
-            evs = stream(g)
+            ctx["before"] = stream(g)
+            pen = pen_for(caps)
+            draw_into(g, pen, self)
+            evs = pen.evs
             ctx["stream"] = evs
             return [ok, [out_ev(e) for e in evs]]
         if k == "rebuild":
             ctx["before"] = stream(g)
             n = Glyph()
             self.keep.append(n)
-            g.drawPoints(n.getPointPen())
+            draw_into(g, pen_for(caps, n.getPointPen()), self)
             ctx["result"] = n
             return [ok, dump(n)]
         if k == "drawContour":
@@ -880,7 +1087,7 @@ class World(object):
             n = Glyph()
             self.keep.append(n)
             c = g[op[3]]
-            c.drawPoints(n.getPointPen())
+            draw_into(c, pen_for(caps, n.getPointPen()), self)
             ctx["result"] = n
             return [ok, dump(n)]
         if k == "drawComponent":
@@ -888,7 +1095,7 @@ class World(object):
             n = Glyph()
             self.keep.append(n)
             c = g.components[op[3]]
-            c.drawPoints(n.getPointPen())
+            draw_into(c, pen_for(caps, n.getPointPen()), self)
             ctx["result"] = n
             return [ok, dump(n)]
         if k == "segdraw":
@@ -907,7 +1114,7 @@ class World(object):
         if k == "copy":
             df, dn = op[3], op[4]
             ctx["src_dump"] = dump(g)
-            d = Glyph() if df == "-" else self.fonts[df].newGlyph(dn)
+            d = Glyph() if df == "-" else self.layers[df].newGlyph(dn)
             self.keep.append(d)
             d.copyDataFromGlyph(g)
             self.glyphs[(df, dn)] = d
@@ -919,7 +1126,7 @@ class World(object):
         if k == "insert":
             df, dn = op[3], op[4]
             ctx["src_dump"] = dump(g)
-            d = self.fonts[df].insertGlyph(g, name=dn)
+            d = self.layers[df].insertGlyph(g, name=dn)
             self.keep.append(d)
             self.glyphs[(df, dn)] = d
             self.poisoned.discard((df, dn))
@@ -933,7 +1140,7 @@ class World(object):
             # identifiers registered but carried by no object: left behind by an earlier REJECTED pen call
             # (C10's concern); then only the outline of the decomposition is judged here
             ctx["leaked"] = sorted(set(g.identifiers) - set(ctx["ids_before"]))
-            ctx["font"] = self.fonts.get(op[1])
+            ctx["font"] = self.layers.get(op[1])
             if k == "decompose":
                 comp = g.components[op[3]]
                 g.decomposeComponent(comp)
@@ -998,7 +1205,7 @@ def _run_impl(case, tmp):
     for k, v in case.get("gen_stats", {}).items():
         stats[k] = stats.get(k, 0) + v
     stats["cases"] = 1
-    big = any(len(ct["points"]) >= 3 for f in case["fonts"].values() for g in f["glyphs"] for ct in g[2]["contours"])
+    big = any(len(ct["points"]) >= 3 for _, _, glyphs in layer_specs(case) for g in glyphs for ct in g[2]["contours"])
     good = sum(w.stats.get("ok." + k, 0) for k in ("rebuild", "copy", "insert", "decompose", "decomposeAll", "segrebuild"))
     return dict(out=outs, viol=viol[:5], info=dict(nontrivial=bool(big and good), stats=stats))
 
@@ -1061,9 +1268,26 @@ def stream_ids(evs):
     return ids
 
 
+def cap_stream(evs, caps):
+    """what a pen whose methods accept `identifier` only as far as `caps` says can be told of a call stream:
+    every call, with everything but the identifiers it has no keyword for"""
+    out = []
+    for e in evs:
+        if e[0] == "bp" and "b" not in caps:
+            e = ("bp", None)
+        elif e[0] == "pt" and "p" not in caps:
+            e = tuple(e[:6]) + (None,)
+        elif e[0] == "comp" and "c" not in caps:
+            e = tuple(e[:3]) + (None,)
+        out.append(e)
+    return out
+
+
 def V(clause, ctx, **kw):
     op = ctx["op"]
-    site = op[0] + "/" + str(ctx.get("variant"))
+    caps = op_caps(op)
+    pen = "" if caps == FULL else (".penBeforeIdentifiers" if caps == "" else ".penAccepting[%s]" % caps)
+    site = op[0] + pen + ctx.get("where", "") + "/" + str(ctx.get("variant"))
     d = dict(clause="C13/" + clause, signature="C13/%s/%s" % (clause, site), op=_short(op))
     d.update({k: _short(v) for k, v in kw.items()})
     return d
@@ -1212,11 +1436,31 @@ def oracle_step(w, ctx, step):
         for v in viol:
             v["step"] = step
         return viol
-    if k in ("rebuild", "drawContour", "drawComponent"):
+    if k == "draw":
+        # a pen that predates identifiers (in some or all of its methods) is told the same calls as a pen of
+        # today's protocol, identifiers excepted: coordinates, types, smooth flags, names, bases, transformations
+        before = ctx.get("before")
+        caps = op_caps(op)
+        if before is None or caps == FULL:
+            return []
+        if err:
+            viol.append(V("restricted-pen-raises", ctx, error=err))
+        else:
+            got = [norm_ev(e) for e in ctx["stream"]]
+            exp = [norm_ev(e) for e in cap_stream(before, caps)]
+            if got != exp:
+                viol.append(V("restricted-pen-stream", ctx, expected=exp, observed=got))
+            after = [norm_ev(e) for e in stream(w.glyphs[ctx["key"]])]
+            if after != [norm_ev(e) for e in before]:
+                viol.append(V("drawing-changes-source", ctx))
+    elif k in ("rebuild", "drawContour", "drawComponent"):
         before = ctx.get("before")
         if before is None:
             return []
-        ids = stream_ids(before)
+        caps = op_caps(op)
+        # rebuild: the identifiers that reach the empty glyph must be distinct; drawContour loads the whole
+        # glyph first (glyph[i]), so all of its identifiers must be
+        ids = stream_ids(cap_stream(before, caps) if k == "rebuild" else before)
         valid = len(ids) == len(set(ids)) and split_stream(before) is not None
         if k == "rebuild":
             part = before
@@ -1238,6 +1482,7 @@ def oracle_step(w, ctx, step):
                         viol.append(V("index", ctx, error=err))
                     return viol
                 part = [comps[i]]
+        part = cap_stream(part, caps)
         if err:
             if valid and not ctx.get("tainted"):
                 viol.append(V("pointpen-roundtrip-raises", ctx, error=err))
@@ -1302,9 +1547,16 @@ def oracle_step(w, ctx, step):
             if sorted(d.identifiers) != sorted(set(ids)) or len(ids) != len(set(ids)):
                 viol.append(V("copy-identifiers", ctx, expected=sorted(ids), observed=sorted(d.identifiers)))
             if k == "insert":
-                font = w.fonts[op[3]]
+                font = w.layers[op[3]]
                 if op[4] not in font or font[op[4]] is not d:
                     viol.append(V("insert-not-in-layer", ctx))
+                else:
+                    # ... and in that layer only
+                    for lid, other in w.layers.items():
+                        if lid != op[3] and _layer_of(other) is not _layer_of(font) and op[4] in other and other[op[4]] is d:
+                            viol.append(V("insert-not-in-layer", ctx, also_in=lid))
+            if op[3] != "-" and d.layer is not _layer_of(w.layers[op[3]]):
+                viol.append(V("copy-destination-layer", ctx))
     elif k in ("decompose", "decomposeAll"):
         before = ctx.get("before")
         sp = split_stream(before) if before is not None else None
@@ -1364,6 +1616,12 @@ def oracle_step(w, ctx, step):
     for v in viol:
         v["step"] = step
     return viol
+
+
+def _layer_of(container):
+    """the Layer object behind a Font (its default layer) or a Layer"""
+    layers = getattr(container, "layers", None)
+    return container if layers is None else layers.defaultLayer
 
 
 def _ce(e):
